@@ -319,8 +319,11 @@ class Ctx:
                   assumptions=(assumptions or []) + self.assumptions, wall_s=round(time.time() - self.t0, 1),
                   violations=violations)
         if not self.replay:
-            os.makedirs(os.path.join(VERIF, "evidence"), exist_ok=True)
-            with open(os.path.join(VERIF, "evidence", "%s.json" % self.prop), "w") as fh:
+            # evidence describes runs against /repo itself; a run against a scratch copy (VERIF_REPO: mutation and
+            # seeded-change testing) leaves its record under out/, never in evidence/
+            edir = os.path.join(VERIF, "evidence") if os.path.realpath(REPO) == "/repo" else os.path.join(VERIF, "out", "evidence_scratch")
+            os.makedirs(edir, exist_ok=True)
+            with open(os.path.join(edir, "%s.json" % self.prop), "w") as fh:
                 json.dump(ev, fh, indent=1)
         self.cleanup()
         self.log("done: %d divergence signature(s), %d violation(s), %.1fs" % (len(by_sig), violations, time.time() - self.t0))
